@@ -451,7 +451,7 @@ FM_OVERRIDES_OK = [
     ("html_meta", "{\"description lang=en\": \"another desc\", keywords: \"c, d\"}"),
     ("url_schemes", "{http: null, https: null, wiki: \"https://fm.wiki/{{path}}\"}"), ("url_schemes", "[http, https]"),
     ("heading_anchors", "1"), ("sub_delimiters", "[\"|\", \"|\"]"), ("suppress_warnings", "[\"myst.html\", \"myst.substitution\"]"),
-    ("number_code_blocks", "[c]"), ("words_per_minute", "300"),
+    ("number_code_blocks", "[c]"), ("words_per_minute", "300"), ("heading_anchors", "null"),
     ("html_meta", "{\"description lang=en\": \"desc\", keywords: \"a, b\"}"), ("all_links_external", "true"),
     ("number_code_blocks", "[python]"), ("words_per_minute", "100"), ("enable_checkboxes", "true"),
     ("fence_as_directive", "[python]"), ("suppress_warnings", "[\"myst.header\"]"),
@@ -462,13 +462,18 @@ FM_OVERRIDES_BAD = [
     ("heading_anchors", "99"), ("enable_extensions", "[nonexistent_ext]"), ("footnote_sort", "maybe"),
     ("unknown_field", "1"), ("substitutions", "[a, b]"), ("html_meta", "{a: 1}"), ("url_schemes", "7"),
     ("words_per_minute", "fast"), ("sub_delimiters", "[\"{\", \"}}\"]"), ("inventories", "{k: 1}"),
-    ("heading_slug_func", "not.a.module.func"), ("fence_as_directive", "5"),
+    ("heading_slug_func", "not.a.module.func"), ("fence_as_directive", "5"), ("words_per_minute", "0"),
+    ("words_per_minute", "-5"), ("heading_anchors", "2.5"), ("enable_extensions", "null"), ("substitutions", "null"),
 ]
 FM_BROKEN = [
     "---\na: [unclosed\n---\n", "---\n&a *a\n---\n", "---\n- just\n- a list\n---\n", "---\njust a string\n---\n",
     "---\nmyst: not-a-dict\n---\n", "---\nk: !!python/object:os.system x\n---\n", "---\na: b: c\n---\n",
     "---\n\"unterminated\n---\n", "---\nmyst:\n  substitutions: 5\nhtml_meta: 3\n---\n", "---\nx: *undefined_alias\n---\n",
     "---\n? [complex, key]\n: v\n---\n", "---\n---\n", "---\nsubstitutions:\n  key1: top-level\n---\n",
+    # values YAML constructs into non-JSON types, or refuses with a non-YAML error
+    "---\nwhen: [2020-01-01]\n---\n", "---\nblob: !!binary aGVsbG8=\n---\n", "---\ntags: !!set {x, y}\n---\n",
+    "---\nwhen: 2020-13-45\n---\n", "---\nbig: " + "9" * 5000 + "\n---\n", "---\ndeep: " + "[" * 3000 + "\n---\n",
+    "---\nwhen: 2020-01-01\nat: 12:30:45\nmap: {1: 2, null: 3}\nfloat: .inf\n---\n",
 ]
 
 
